@@ -308,3 +308,7 @@ Proof.
   - rewrite H. reflexivity.
   - rewrite H in N. contradiction.
 Qed.
+
+Theorem front_end_profile_irrelevant src :
+  (byte_len src < u32_limit)%N -> lex Debug src = lex Release src /\ parse Debug src = parse Release src.
+Proof. intro H. split; [apply lex_profile_irrelevant|apply parse_profile_irrelevant]; exact H. Qed.
